@@ -23,18 +23,33 @@ Definition trace := list ev.
 Inductive err := ErrInvalidConfig | ErrRouteExist | ErrRouteNotFound
   | ErrOther.   (* any other error class; never produced by specification or model *)
 
+Inductive flag := FRedirect | FIgnore | FNoMethod | FAutoOptions.
+
 (* global options, as written in fox.New(...); None is a nil MiddlewareFunc *)
 Inductive gopt :=
 | GMw (ms : list (option mwid))                  (* WithMiddleware(ms...) *)
 | GMwFor (scope : N) (ms : list (option mwid))   (* WithMiddlewareFor(scope, ms...) *)
 | GDefault                                       (* DefaultOptions() *)
-| GOther.                                        (* any option that does not register middleware *)
+| GOther                                         (* any option that neither registers middleware nor sets a flag below *)
+| GFlag (f : flag) (b : bool)                    (* WithRedirectTrailingSlash / WithIgnoreTrailingSlash / WithNoMethod / WithAutoOptions (b) *)
+| GCustomH (k : kind).                           (* WithNoRouteHandler / WithNoMethodHandler / WithOptionsHandler with a handler emitting Run; the last two also enable their feature *)
+
+(* per-route trailing-slash options *)
+Inductive tsopt := TRedirect (b : bool) | TIgnore (b : bool).
+
+(* request shapes sent for route key (routes are registered under GET only) *)
+Inductive shape :=
+| SExact        (* GET, the registered path *)
+| STsr          (* GET, that path plus a trailing slash *)
+| SNoMatch      (* GET, a path nothing matches *)
+| SPost         (* POST, the registered path *)
+| SOptions.     (* OPTIONS, the registered path *)
 
 (* operations on a router; keys name (method, pattern) pairs *)
 Inductive op :=
-| OHandle (key hid : nat) (ms : list (option mwid))   (* Handle(key, handler hid, WithMiddleware(ms...)) *)
-| OUpdate (key hid : nat) (ms : list (option mwid))   (* Update(...) *)
-| OServe (k : kind) (key : nat)                       (* a request that reaches handler kind k (for route key) *)
+| OHandle (key hid : nat) (ms : list (option mwid)) (ts : list tsopt)   (* Handle(key, handler hid, WithMiddleware(ms...), ts...) *)
+| OUpdate (key hid : nat) (ms : list (option mwid)) (ts : list tsopt)   (* Update(...) *)
+| OServe (s : shape) (key : nat)                      (* a request of shape s for route key *)
 | ORouteHandle (key : nat)                            (* Route.Handle of the registered route *)
 | ORouteHandleMw (key : nat).                         (* Route.HandleMiddleware *)
 
@@ -74,8 +89,57 @@ Definition obs_eqb (a b : obs) : bool :=
   | _, _ => false
   end.
 
-(* ids of the special base handlers the harness installs (they emit Run of these);
-   the internal redirect handler emits nothing *)
+(* ---- feature flags and dispatch.  Which handler kind ServeHTTP reaches is the subject of C08 / C11 and how the
+   flags are set that of C19; both are reproduced here (shared by specification and model) because they decide
+   WHICH composed chain a request runs through. ---- *)
+Record cfg := mkCfg { c_redirect : bool; c_ignore : bool; c_noMethod : bool; c_autoOptions : bool }.
+Definition cfg0 : cfg := mkCfg false false false false.
+
+Definition cfg_gopt (c : cfg) (o : gopt) : cfg :=
+  match o with
+  | GFlag FRedirect b => mkCfg b (if b then false else c_ignore c) (c_noMethod c) (c_autoOptions c)
+  | GFlag FIgnore b => mkCfg (if b then false else c_redirect c) b (c_noMethod c) (c_autoOptions c)
+  | GFlag FNoMethod b => mkCfg (c_redirect c) (c_ignore c) b (c_autoOptions c)
+  | GFlag FAutoOptions b => mkCfg (c_redirect c) (c_ignore c) (c_noMethod c) b
+  | GCustomH KNoMethod => mkCfg (c_redirect c) (c_ignore c) true (c_autoOptions c)
+  | GCustomH KOptions | GDefault => mkCfg (c_redirect c) (c_ignore c) (c_noMethod c) true
+  | _ => c
+  end.
+Definition cfg_of (opts : list gopt) : cfg := fold_left cfg_gopt opts cfg0.
+
+(* (redirect, ignore) of a route: the router's values when it is created, then its own options *)
+Definition ts_step (f : bool * bool) (o : tsopt) : bool * bool :=
+  match o with
+  | TRedirect b => (b, if b then false else snd f)
+  | TIgnore b => (if b then false else fst f, b)
+  end.
+Definition route_flags (c : cfg) (ts : list tsopt) : bool * bool := fold_left ts_step ts (c_redirect c, c_ignore c).
+
+(* ServeHTTP for a tree holding GET routes only; rt = flags of the route registered under the key, if any *)
+Definition dispatch (c : cfg) (rt : option (bool * bool)) (s : shape) : kind :=
+  match rt with
+  | None => KNoRoute
+  | Some (redirect, ignore) =>
+      match s with
+      | SExact => KRoute
+      | STsr => if ignore then KRoute else if redirect then KRedirect else KNoRoute
+      | SNoMatch => KNoRoute
+      | SPost => if c_noMethod c then KNoMethod else KNoRoute
+      | SOptions => if c_autoOptions c then KOptions else if c_noMethod c then KNoMethod else KNoRoute
+      end
+  end.
+
+Definition kind_eqb (a b : kind) : bool :=
+  match a, b with
+  | KRoute, KRoute | KNoRoute, KNoRoute | KNoMethod, KNoMethod | KRedirect, KRedirect | KOptions, KOptions => true
+  | _, _ => false
+  end.
+(* did the option list install a custom handler for kind k *)
+Definition custom_of (opts : list gopt) (k : kind) : bool :=
+  existsb (fun o => match o with GCustomH k' => kind_eqb k' k | _ => false end) opts.
+
+(* ids of the custom special handlers the harness installs (they emit Run of these);
+   the default handlers and the internal redirect handler emit nothing *)
 Definition base_trace (k : kind) : trace :=
   match k with
   | KNoRoute => [Run 1] | KNoMethod => [Run 2] | KOptions => [Run 3] | KRedirect => [] | KRoute => []
